@@ -774,6 +774,8 @@ def run(tier, seed):
             model_case("probe", body, True, res)
     finally:
         pr.uninstall()
+    import time
+    chk.extra["t_proof_and_implementation_s"] = round(time.time() - chk.t0, 1)
     kw = clist([cstr(k) for k in keyword.kwlist])
     # not observable: flags at get_context_data (component), the self-closing slash at the probe (no end tag) - the
     # model's own value is let through there
@@ -799,6 +801,7 @@ def run(tier, seed):
     sbad = C.coq_eval_cases("C02", "spec", IMPORTS_S, "scase", "chk", sterms, shard=300, timeout=1200, extra_defs=extra_s)
     for i in sbad[:20]:
         chk.disagree("S-model (arglist_ok / print == text handed to parse_tag / denote == received values) != implementation", scases[i])
+    chk.extra["t_total_before_finish_s"] = round(time.time() - chk.t0, 1)
     chk.extra["spec_cases"] = len(sterms)
     chk.extra["model_cases"] = len(terms)
     chk.extra["spec_disagreement_examples"] = [scases[i] for i in sbad[:8]]
